@@ -32,19 +32,31 @@ def expOK (x r : Dec) (P : Nat) : Bool × Bool × String :=
       else if v.hi < lo || hi < v.lo then (false, true, "more than one unit in the last place away from e^x")
       else (true, false, "enclosure straddles the one-ulp boundary")
 
+/-- the premise of `C13_accuracy_code`: the loop stopped at an index `N` with `101·|x| ≤ 100·(N+1)` -/
+def stopPremise (x : Dec) (N : Nat) : Bool :=
+  if x.scale ≥ 0 then decide (101 * x.int.natAbs ≤ 100 * (N + 1) * 10 ^ x.scale.toNat)
+  else decide (101 * x.int.natAbs * 10 ^ (-x.scale).toNat ≤ 100 * (N + 1))
+
 def handle (op : String) (args : List String) (impl : String) : Verdict :=
   match op, args with
   | "exp", [x, prec] =>
     match parseDec? x, parseNat? prec, parseDec? impl with
     | some x, some P, some r =>
       let cfg := C08.cfgOf P
-      let model := x.exp cfg F64.estCode
+      -- one run of the series: `Dec.exp_eq_expN`, `C13_stop_index_expN`
+      let run := x.expN cfg F64.estCode
+      let model := run.map Prod.snd
       let (ok, concl, why) := expOK x r P
       let mok := match model with
         | some m => (expOK x m P).1
         | none => false
+      -- the decidable premise of the accuracy theorem, evaluated on this run of the model
+      let prem := if x.int == 0 then "" else
+        match run.map Prod.fst with
+        | some N => if stopPremise x N then "+stop-premise-holds" else "+stop-premise-fails"
+        | none => "+stop-index-none"
       { model := showOptDec model, mi := model == some r, si := ok, sm := mok, note := why,
-        tag := "exp" ++ (if x.int < 0 then ":neg" else ":pos") ++ (if concl then "" else ":inconclusive"),
+        tag := "exp" ++ (if x.int < 0 then ":neg" else ":pos") ++ (if concl then "" else ":inconclusive") ++ prem,
         trivial := x.int == 0 }
     | _, _, _ => badInput "exp args"
   | "mono", [x, y, prec] =>
